@@ -246,10 +246,27 @@ def Foot.confined (f : Foot) : Bool := decide (f ≠ .userState)
 /-- commands of these footprints run no hook at all (they write no ref, no index, no commit). -/
 def Foot.hookFree (f : Foot) : Bool := decide (f = .readOnly) || decide (f = .objects)
 
-/-- `-c core.hooksPath=/dev/null` is present (`args_with_disabled_hooks_if_needed` /
-    `sync_authorship.rs:with_disabled_hooks`). -/
-def literalHooksOff (argv : List Arg) : Bool :=
-  (argv.zip argv.tail).any (fun p => p.1.isLit dashC && p.2.isLit hooksNull)
+def hooksPathKey : Str := ['c', 'o', 'r', 'e', '.', 'h', 'o', 'o', 'k', 's', 'P', 'a', 't', 'h', '=']
+
+/-- what follows the `-c core.hooksPath=/dev/null` pair cannot override it: no further `-c core.hooksPath=…` pair and no
+    token sequence that may hold one (the repository's global args carry the USER's `-c` options). -/
+def noLaterOverride : List Arg → Bool
+  | [] => true
+  | .globals :: _ => false
+  | .many :: _ => false
+  | a :: r =>
+    match r with
+    | b :: _ => if a.isLit dashC && (b.hasPrefix hooksPathKey || decide (b = .unknown)) then false else noLaterOverride r
+    | [] => true
+
+/-- `-c core.hooksPath=/dev/null` is present AND is the last hooks-path override of the command line — git uses the
+    last one (`args_with_disabled_hooks_if_needed` / `sync_authorship.rs:with_disabled_hooks`). -/
+def literalHooksOff : List Arg → Bool
+  | [] => false
+  | a :: r =>
+    match r with
+    | b :: r' => (a.isLit dashC && b.isLit hooksNull && noLaterOverride r') || literalHooksOff r
+    | [] => false
 
 def footprintArgv (argv : List Str) (refs : List Str) : Foot := footprint (argv.map .lit) refs
 def hooksOffArgv (argv : List Str) : Bool := literalHooksOff (argv.map .lit)
